@@ -59,7 +59,9 @@ class MultiTrackLargeVocabularyNotelikeTokeniser:
             self.note_values = get_default_note_values()
         self.note_values.sort()
 
-        self.velocity_bins = [int(velocity_bin) for velocity_bin in get_velocity_bins(velocity_bins=velocity_bins)]
+        # Bin values saturate at the maximum velocity for large bin counts, keep each value once
+        self.velocity_bins = list(dict.fromkeys(
+            int(velocity_bin) for velocity_bin in get_velocity_bins(velocity_bins=velocity_bins)))
 
         # Memory
         self.cur_time = None
